@@ -9,7 +9,8 @@ Open Scope Z_scope.
 Definition t_sha1 (x : bytes) : bytes := repeat (sumz x mod 256) 20.
 Definition t_cfb_enc (a : Z) (k x : bytes) : option bytes := Some (map (fun b => b + sumz k) x).
 Definition t_cfb_dec (a : Z) (k c : bytes) : option bytes := Some (map (fun b => b - sumz k) c).
-Definition t_rsa_bits (h : bytes) : Z := 272.
+(* (a modulus length that is no multiple of 8 bits: 34 octets) *)
+Definition t_rsa_bits (h : bytes) : Z := 271.
 Definition t_rsa_enc (h seed m : bytes) : option bytes :=
   if (length m <=? 32)%nat && wfb m then Some ([1; Z.of_nat (length m)] ++ m ++ repeat 0 (32 - length m)) else None.
 Definition t_rsa_dec (h c : bytes) : option bytes :=
@@ -39,14 +40,14 @@ Lemma wf_repeat0 n : wf_bytes (repeat 0 n).
 Proof. induction n; cbn; constructor; [lia|assumption]. Qed.
 
 Lemma t_rsa_ok h seed m c : t_rsa_enc h seed m = Some c ->
-  wf_bytes c /\ Z.of_nat (length c) = t_rsa_bits h / 8 /\ t_rsa_bits h < 65536 /\ t_rsa_dec h c = Some m.
+  wf_bytes c /\ Z.of_nat (length c) = (t_rsa_bits h + 7) / 8 /\ t_rsa_bits h + 7 < 65536 /\ t_rsa_dec h c = Some m.
 Proof.
   unfold t_rsa_enc. remember (32 - length m)%nat as pad eqn:Hp.
   destruct ((length m <=? 32)%nat) eqn:L; [|discriminate].
   destruct (wfb m) eqn:W; [|discriminate]. cbn [andb]. intros [= <-].
   apply wfb_iff in W. apply Nat.leb_le in L. split; [|split; [|split]].
   - constructor; [lia|]. constructor; [lia|]. apply wf_bytes_app. split; [exact W|apply wf_repeat0].
-  - unfold t_rsa_bits. change (272 / 8) with 34.
+  - unfold t_rsa_bits. change ((271 + 7) / 8) with 34.
     cbn [length]. rewrite app_length, repeat_length. lia.
   - reflexivity.
   - cbn [t_rsa_dec app]. rewrite Nat2Z.id. rewrite firstn_app_exact by reflexivity. reflexivity.
